@@ -61,12 +61,42 @@ func ifEmbeddable(src string) (string, bool) {
 	return text, true
 }
 
+// ifQuoted: texts that cannot be written as a plain scalar (leading / trailing / only
+// white space, a leading digit or operator ...) are written single-quoted ('' for ').
+// Returns the scalar, the text and whether the column of a diagnostic at byte offset
+// off of the text is still off + 1 columns after the opening quote.
+func ifQuoted(src string) (scalar, text string, ok bool) {
+	if !embeddable(src) || strings.Count(src, "}}") != 1 {
+		return "", "", false
+	}
+	text = strings.TrimSuffix(src, "}}")
+	if text == "" || strings.ContainsAny(text, "{}") {
+		return "", "", false
+	}
+	return "'" + strings.ReplaceAll(text, "'", "''") + "'", text, true
+}
+
 func ifOracle(l *actionlint.Linter, src string, ir implResult) lintResult {
 	text, ok := ifEmbeddable(src)
+	valueCol := ifValueCol
+	scalar := text
+	exactCol := true
 	if !ok {
-		return lintResult{ok: true}
+		var okq bool
+		scalar, text, okq = ifQuoted(src)
+		if !okq {
+			return lintResult{ok: true}
+		}
+		valueCol = ifValueCol + 1
+		if !ir.accepted && ir.err != nil {
+			upto := ir.err.Offset
+			if upto > len(text) {
+				upto = len(text)
+			}
+			exactCol = !strings.Contains(text[:upto], "'")
+		}
 	}
-	errs, err := l.Lint("<stdin>", []byte(ifPrefix+text+"\n"), nil)
+	errs, err := l.Lint("<stdin>", []byte(ifPrefix+scalar+"\n"), nil)
 	if err != nil {
 		return lintResult{false, "Linter.Lint failed: " + err.Error(), ""}
 	}
@@ -83,8 +113,8 @@ func ifOracle(l *actionlint.Linter, src string, ir implResult) lintResult {
 		}
 		return lintResult{true, "", got}
 	}
-	wantCol := ifValueCol + ir.err.Column - 1
-	if len(errs) != 1 || errs[0].Kind != "expression" || errs[0].Message != ir.err.Message || errs[0].Line != ifLine || errs[0].Column != wantCol {
+	wantCol := valueCol + ir.err.Column - 1
+	if len(errs) != 1 || errs[0].Kind != "expression" || errs[0].Message != ir.err.Message || errs[0].Line != ifLine || (exactCol && errs[0].Column != wantCol) {
 		return lintResult{false, "rejected text used as an if: condition does not yield exactly the parser's diagnostic at the offending character (want line " + itoa(ifLine) + " column " + itoa(wantCol) + ")", got}
 	}
 	return lintResult{true, "", got}
